@@ -25,6 +25,9 @@ def run(ctx):
     J.j5_bijection_maps(ctx)
     J.j6_all_rules_written(ctx)
     J.j7_positional_settings(ctx)
+    from ..engines import closure as G10E
+    G10E.g10_loader_takes_rules_as_written(ctx)
+    ctx.floor("G10", 1)
     J.j8_container_normalisation(ctx)
     # the rules a specification adds to itself on demand are dumped with the rest
     G.g6_lazy_empty_rule(ctx)
